@@ -5,11 +5,15 @@ From Verif Require Import Base.KV Base.Keys Model.Store Proofs.StoreProofs.
 Import ListNotations.
 Open Scope string_scope.
 
-(* For every history of operations, reopenings and crashes inside operations, over all heights,
-   hashes, values and metadata keys (saved headers with equal hashes having equal heights): every
-   result the store returns is the result of the height-indexed-map specification, where each
-   crashed operation either happened entirely or not at all; and the final image represents the
-   final specification state (relation R: per key kind, exactly the latest value written). *)
+(* For every history of operations, reopenings, crashes inside operations and transient write faults
+   inside operations (a datastore write attempt of the operation returns an error, the store lives on),
+   over all heights, hashes, values and metadata keys (saved headers with equal hashes having equal
+   heights): every result the store returns is the result of the height-indexed-map specification,
+   where each crashed operation either happened entirely or not at all, and each operation that met
+   a write fault returned an error and left the map EXACTLY as it was (a_fault_step: nothing of a
+   failed operation is ever visible, now, to a retry, or after a reopen); and the final image
+   represents the final specification state (relation R: per key kind, exactly the latest value
+   written by an operation that did not fail). *)
 Theorem C14_refines_full : forall h : list item,
   hash_consistentb (saves h) = true ->
   exists happened,
@@ -23,7 +27,7 @@ Theorem C14_keys_disjoint_full : forall a b : keykind, key_of a = key_of b -> a 
 Proof. exact key_of_inj. Qed.
 Print Assumptions C14_keys_disjoint_full.
 
-(* the recorded height only grows — for all histories, no hypothesis *)
+(* the recorded height only grows — for all histories (write faults included), no hypothesis *)
 Theorem C14_height_monotone_full : forall h1 h2 : list item,
   exists n1 n2, c_height (final h1) = Some n1 /\ c_height (final (h1 ++ h2)) = Some n2 /\ (n1 <= n2)%N.
 Proof. exact height_monotone. Qed.
@@ -48,15 +52,51 @@ Theorem C14_save_atomic_full : forall (m : img) hd d s k,
 Proof. exact save_atomic. Qed.
 Print Assumptions C14_save_atomic_full.
 
+(* ---- transient write faults (the store stays open) ------------------------------------------------ *)
+(* an operation whose write attempt number k exists and fails returns an error and leaves the database exactly
+   what it was — for every image, operation and k *)
+Theorem C14_fault_no_effect_full : forall (m : img) (o : op) (k : nat),
+  (k < length (fst (step m o)))%nat -> istep m (IFault o k) = (m, Some RErr).
+Proof. exact fault_no_effect. Qed.
+Print Assumptions C14_fault_no_effect_full.
+
+(* an operation that makes fewer than k+1 write attempts is not touched by the armed fault *)
+Theorem C14_fault_not_met_full : forall (m : img) (o : op) (k : nat),
+  (length (fst (step m o)) <= k)%nat -> istep m (IFault o k) = istep m (IOp o).
+Proof. exact fault_not_met. Qed.
+Print Assumptions C14_fault_not_met_full.
+
+(* everything acknowledged survives: a SetHeight(n) that returned without error (plain, or with a fault armed that
+   it did not meet) is durable — after ANY continuation of operations, reopenings, crashes and faults the recorded
+   height is at least n *)
+Theorem C14_acked_height_durable_full : forall (h1 : list item) (i : item) (h2 : list item) (n : N),
+  item_op i = Some (OSetHeight n) -> snd (istep (final h1) i) = Some RUnit ->
+  exists n', c_height (final (h1 ++ i :: h2)) = Some n' /\ (n <= n')%N.
+Proof. exact acked_height_durable. Qed.
+Print Assumptions C14_acked_height_durable_full.
+
+(* a height that Height() reported is never lost by any continuation (reopen, crash, write fault) *)
+Theorem C14_reported_height_durable_full : forall (h1 h2 : list item) (n : N),
+  snd (step (final h1) OHeight) = RHeight n ->
+  exists n', c_height (final (h1 ++ h2)) = Some n' /\ (n <= n')%N.
+Proof. exact reported_height_durable. Qed.
+Print Assumptions C14_reported_height_durable_full.
+
 (* ---- non-vacuity: a concrete history meeting the hypotheses, with an overwrite at one height by a
    header of a different hash, a crash inside a save, a reopen, and the node's metadata keys ------- *)
 Definition hA := {| hid := 1; hheight := 5; hhash := "aa" |}.
 Definition hB := {| hid := 2; hheight := 5; hhash := "bb" |}.
 Definition hC := {| hid := 3; hheight := 6; hhash := "cc" |}.
+Definition hD := {| hid := 4; hheight := 6; hhash := "dd" |}.
 Definition ex_history : list item :=
   [ IOp (OSave hA 1 1); IOp (OSetHeight 5); ICrash (OSave hB 2 2) 0; IOp (OGetByHash "aa");
     IOp (OSave hB 2 2); IReopen; IOp (OGetByHash "aa"); IOp (OGetByHash "bb"); ICrash (OSave hC 3 3) 1;
-    IOp (OSetHeight 3); IOp OHeight; IOp (OSetMeta "last-submitted-header-height" 7); IOp (OGetMeta "d") ].
+    IOp (OSetHeight 3); IOp OHeight; IOp (OSetMeta "last-submitted-header-height" 7); IOp (OGetMeta "d");
+    (* write faults: a failed SetHeight is invisible, its retry writes; a fault armed on a no-op SetHeight is not met;
+       a failed save, state update and metadata write leave the old values *)
+    IFault (OSetHeight 9) 0; IOp OHeight; IOp (OSetHeight 9); IReopen; IOp OHeight; IFault (OSetHeight 4) 0;
+    IFault (OSave hD 4 4) 0; IOp (OGetBlock 6); IFault (OUpdState 1) 0; IOp OGetState;
+    IFault (OSetMeta "d" 2) 0; IOp (OGetMeta "d"); IFault (OSetMeta "d" 2) 1; IOp (OGetMeta "d") ].
 
 Example ex_meets_hypothesis : hash_consistentb (saves ex_history) = true.
 Proof. vm_compute. reflexivity. Qed.
@@ -64,8 +104,20 @@ Proof. vm_compute. reflexivity. Qed.
 Example ex_outputs :
   outputs ex_history =
   [ Some RUnit; Some RUnit; None; Some (RBlock hA 1); Some RUnit; None; Some RErr; Some (RBlock hB 2); None;
-    Some RUnit; Some (RHeight 5); Some RUnit; Some RErr ].
+    Some RUnit; Some (RHeight 5); Some RUnit; Some RErr;
+    Some RErr; Some (RHeight 5); Some RUnit; None; Some (RHeight 9); Some RUnit;
+    Some RErr; Some (RBlock hC 3); Some RErr; Some RErr;
+    Some RErr; Some RErr; Some RUnit; Some (RBytes 2) ].
 Proof. vm_compute. reflexivity. Qed.
+
+(* the hypotheses of the fault theorems are met: the fault of [IFault (OSetHeight 9) 0] is met after the first 13 items,
+   the acknowledged retry is durable over the rest of the history *)
+Example ex_fault_met : (0 < length (fst (step (final (firstn 13 ex_history)) (OSetHeight 9))))%nat.
+Proof. vm_compute. constructor. Qed.
+Example ex_ack : item_op (IOp (OSetHeight 9)) = Some (OSetHeight 9)
+  /\ snd (istep (final (firstn 15 ex_history)) (IOp (OSetHeight 9))) = Some RUnit
+  /\ (firstn 15 ex_history ++ IOp (OSetHeight 9) :: skipn 16 ex_history)%list = ex_history.
+Proof. vm_compute. repeat split; reflexivity. Qed.
 
 Example node_meta_keys_clean :
   forallb clean_meta ["d"; "l"; "last-submitted-header-height"; "last-submitted-data-height"; "rhb/12/h"; "rhb/12/d"] = true
